@@ -215,10 +215,32 @@ package templ
 //@ func JSFuncCall [C03]
 //@   pure
 //@   ensures inL(result.Call, DQ_ATTR_SAFE)
+//@   ensures implies(noJSExpr(args), inL(result.CallInline, JS_BARE_SAFE))
 //@ func JSUnsafeFuncCall [C03]
 //@   pure
 //@   ensures inL(result.Call, DQ_ATTR_SAFE)
 //@   use return.1: html_attr_safe(html.EscapeString(string(js)))
+
+// C03: inline calls (a script template or JSFuncCall rendered as a component). The call text is written raw into a
+// <script> element (ComponentScript.Render), so it must hold neither "</script" nor "<!--": the function name is
+// validated (or replaced), and every argument that is not a JSExpression (inserted as code by design) is JSON with
+// '<', '>' and '&' escaped.
+//@ lang RE_jsFunctionName = regexp(jsFunctionName)
+//@ lemma inl_fn(x) [C03]: inL(x, RE_jsFunctionName) ==> inL(x, JSON_HTMLSAFE) by reglang
+//@ lemma inl_cat(x, y) [C03]: inL(x, JSON_HTMLSAFE) && inL(y, JSON_HTMLSAFE) ==> inL(cat(x, y), JSON_HTMLSAFE) by reglang
+//@ lemma inl_bare(x) [C03]: inL(x, JSON_HTMLSAFE) ==> inL(x, JS_BARE_SAFE) by reglang
+//@ spec noJSExpr(ps) = forall(i, 0, len(ps), !dyntype(ps[i], JSExpression))
+//@ func jsonEncodeParam [C03]
+//@   ensures dyntype(param, JSExpression) || inL(result, JSON_HTMLSAFE)
+//@ func SafeScriptInline [C03]
+//@   ensures implies(noJSExpr(params), inL(result, JS_BARE_SAFE))
+//@   use before sb.WriteString#1: inl_fn(functionName)
+//@   use before sb.WriteRune#1: inl_cat(sb.String(), "(")
+//@   loop 1 invariant implies(noJSExpr(params), inL(sb.String(), JSON_HTMLSAFE))
+//@   use before sb.WriteString#2: inl_cat(sb.String(), arg0)
+//@   use before sb.WriteRune#2: inl_cat(sb.String(), ",")
+//@   use before sb.WriteRune#3: inl_cat(sb.String(), ")")
+//@   use exit: inl_bare(sb.String())
 
 // Spread attributes: on success the bytes appended are a run of  " name"  /  " name=\"value\""  items whose
 // names and values are HTML-escaped, i.e. every value is one attribute value for the tokenizer.
